@@ -1,4 +1,5 @@
 import I18n.Model.FmtCheck
+import I18n.Model.FmtCheckGen
 import I18n.Driver.Util
 /- Driver for the message-format argument checks (C14).
 
@@ -111,6 +112,25 @@ def handle (op : String) (args : List String) : String :=
     let fl : Flags := ⟨fuzzy == "1", rmin.toNat!, if rmax == "inf" then none else some rmax.toNat!⟩
     let formats := parseFormats true (.safe (Driver.unhexChars pfx)) (.safe (Driver.unhexChars repr)) nfmt.toNat! rest
     showResult (checkFormats ctx fl formats)
+  -- `grun` / `gruns` / `glastint`: the same over the definitions REGENERATED from the source (Generated.FmtArgs, tools/translate/fmtargs2lean.py)
+  | "grun", tmpl :: enc :: pre :: fuzzy :: rmin :: rmax :: pfx :: repr :: nfmt :: rest =>
+    let ctx : Ctx := ⟨tmpl == "1", enc == "1", parsePre (tmpl == "1") pre⟩
+    let fl : Flags := ⟨fuzzy == "1", rmin.toNat!, if rmax == "inf" then none else some rmax.toNat!⟩
+    let formats := parseFormats false (.safe (Driver.unhexChars pfx)) (.safe (Driver.unhexChars repr)) nfmt.toNat! rest
+    showResult (Gen.checkFormats ctx fl formats)
+  | "gruns", tmpl :: enc :: pre :: fuzzy :: rmin :: rmax :: pfx :: repr :: nfmt :: rest =>
+    let ctx : Ctx := ⟨tmpl == "1", enc == "1", parsePre (tmpl == "1") pre⟩
+    let fl : Flags := ⟨fuzzy == "1", rmin.toNat!, if rmax == "inf" then none else some rmax.toNat!⟩
+    let formats := parseFormats true (.safe (Driver.unhexChars pfx)) (.safe (Driver.unhexChars repr)) nfmt.toNat! rest
+    showResult (Gen.checkFormats ctx fl formats)
+  | "glastint", [h, n] =>
+    match cParse (Driver.unhexChars h) with
+    | .ok f =>
+      match I18n.Generated.FmtArgs.get_last_integer_conversion f (n.toInt?.getD 0) with
+      | .error e => s!"err {e.name}"
+      | .ok none => "ok none"
+      | .ok (some c) => s!"ok {c}"
+    | _ => "err parse"
   | "lastint", [h, n] =>
     match cParse (Driver.unhexChars h) with
     | .ok f =>
